@@ -5,7 +5,7 @@ package main
 // Predicates evaluated on the implementation (independent of the Coq model):
 //   layout    after StoreChunk the store holds exactly <4 hex>/<64 hex>[.cacnk]; the raw file equals the
 //             chunk, the .cacnk file is exactly one standard zstd frame that decompresses to the chunk
-//   coexist   every Get/Has/Store/Remove through a handle of one format gives the same result on the
+//   coexist   every Get/Has/Store/Remove/Prune/Verify (incl. every message Verify prints) through a handle of one format gives the same result on the
 //             store directory and on a twin directory from which all files of the OTHER format were
 //             deleted, and leaves the other format's files byte-identical; Store then Get round-trips
 //   fixture   every chunk file of the casync-made fixture stores is served and hashes to its name
@@ -14,6 +14,7 @@ package main
 
 import (
 	"bytes"
+	"context"
 	"crypto/sha256"
 	"encoding/hex"
 	"fmt"
@@ -21,6 +22,7 @@ import (
 	"os/exec"
 	"path/filepath"
 	"regexp"
+	"sort"
 	"strings"
 
 	"github.com/folbricht/desync"
@@ -46,10 +48,12 @@ func isFormatFile(rel string, unc bool) bool {
 }
 
 type c20Op struct {
-	Op   string `json:"op"` // get | has | store | remove
-	Unc  bool   `json:"unc"`
-	Skip bool   `json:"skip"`
-	K    int    `json:"k"` // index into Chunks
+	Op     string `json:"op"` // get | has | store | remove | prune | verify
+	Unc    bool   `json:"unc"`
+	Skip   bool   `json:"skip"`
+	K      int    `json:"k"`                // index into Chunks
+	Keep   int    `json:"keep,omitempty"`   // prune: bit mask over Chunks of the ids to keep
+	Repair bool   `json:"repair,omitempty"` // verify
 }
 
 type c20Case struct {
@@ -208,10 +212,44 @@ type opResult struct {
 	Sum   string
 }
 
-func c20Apply(dir string, op c20Op, data []byte) (opResult, error) {
+func c20KeepIDs(op c20Op, chunks []string) []string {
+	var out []string
+	for i, h := range chunks {
+		if op.Keep&(1<<uint(i)) != 0 {
+			out = append(out, lsSha256Hex(vh.UnHex(h)))
+		}
+	}
+	return out
+}
+
+func c20Apply(dir string, op c20Op, data []byte, chunks []string) (opResult, error) {
 	s, err := lsLocalStore(dir, op.Unc, op.Skip)
 	if err != nil {
 		return opResult{}, err
+	}
+	switch op.Op {
+	case "prune":
+		keep := map[desync.ChunkID]struct{}{}
+		for _, h := range c20KeepIDs(op, chunks) {
+			id, _ := desync.ChunkIDFromString(h)
+			keep[id] = struct{}{}
+		}
+		cl := lsErrClass(s.Prune(context.Background(), keep))
+		if cl == "ok" {
+			cl = "nil"
+		}
+		return opResult{Class: cl}, nil
+	case "verify":
+		var w lsLockedBuf
+		verr := s.Verify(context.Background(), 2, op.Repair, &w)
+		cl := "nil"
+		if verr != nil {
+			cl = "other"
+		}
+		// everything Verify printed, order-independent (the directory name is not part of any message)
+		lines := strings.Split(strings.TrimSpace(w.b.String()), "\n")
+		sort.Strings(lines)
+		return opResult{Class: cl, Data: []byte(strings.Join(lines, "\n"))}, nil
 	}
 	sum := sha256.Sum256(data)
 	var id desync.ChunkID
@@ -326,11 +364,11 @@ func c20Coexist(a vh.Args, o *vh.Oracle, r *vh.Result, c *c20Case) error {
 		if err := writeTree(twin, withoutFormat(pre, !op.Unc)); err != nil {
 			return err
 		}
-		res, err := c20Apply(root, op, data)
+		res, err := c20Apply(root, op, data, c.Chunks)
 		if err != nil {
 			return err
 		}
-		resT, err := c20Apply(twin, op, data)
+		resT, err := c20Apply(twin, op, data, c.Chunks)
 		if err != nil {
 			return err
 		}
@@ -425,6 +463,42 @@ func c20Coexist(a vh.Args, o *vh.Oracle, r *vh.Result, c *c20Case) error {
 			} else if d := diffTrees(post, mt); d != "" {
 				fail(i, "corr", "corr:C20/store-tree", "tree after StoreChunk differs from the model: "+d)
 			}
+		case "prune":
+			ans, err := o.Call("c16.prune", lsB01(op.Unc), lsHx([]byte(root)), strings.Join(c20KeepIDs(op, c.Chunks), ","), tree)
+			if err != nil {
+				return err
+			}
+			r.Corr()
+			f := strings.SplitN(ans, " ", 2)
+			mc := f[0]
+			switch {
+			case strings.HasPrefix(mc, "missing"):
+				mc = "missing"
+			case strings.HasPrefix(mc, "errno"):
+				mc = "other"
+			}
+			mt, _ := decodeTree("s", f[1])
+			if mc != res.Class {
+				fail(i, "corr", "corr:C20/prune-result", fmt.Sprintf("model %s, implementation %s", f[0], res.Class))
+			} else if d := diffTrees(post, mt); d != "" {
+				fail(i, "corr", "corr:C20/prune-tree", "tree after Prune differs from the model: "+d)
+			}
+		case "verify":
+			ans, err := o.Call("c16.verify", "lazy", lsB01(op.Unc), lsB01(op.Repair), lsHx([]byte(root)), tree, decompTable(pre))
+			if err != nil {
+				return err
+			}
+			r.Corr()
+			reported := map[string]string{}
+			for _, line := range strings.Split(string(res.Data), "\n") {
+				if m := reInvalid.FindStringSubmatch(line); m != nil {
+					reported[m[1]] = m[2]
+				}
+			}
+			if d := c16CompareVerify(ans, res.Class, reported, post); d != "" {
+				f := strings.SplitN(d, "|", 2)
+				fail(i, "corr", strings.Replace(f[0], "C16", "C20", 1), f[1])
+			}
 		case "remove":
 			ans, err := o.Call("c20.remove", lsB01(op.Unc), base, idh, tree)
 			if err != nil {
@@ -454,6 +528,7 @@ func c20GenCoexist(rng *vh.Rand) *c20Case {
 	k := 2 + rng.Intn(3)
 	for i := 0; i < k; i++ {
 		d, _ := vh.Blob(rng, 1+rng.Intn(60))
+		d = append(d, byte(i)) // distinct chunks, hence distinct ids
 		c.Chunks = append(c.Chunks, vh.Hex(d))
 	}
 	add := func(p, kind string, data []byte) { c.Tree = append(c.Tree, fsEnt{Path: p, Kind: kind, Data: data}) }
@@ -514,9 +589,14 @@ func c20GenCoexist(rng *vh.Rand) *c20Case {
 	}
 	n := 6 + rng.Intn(6)
 	for i := 0; i < n; i++ {
-		op := c20Op{Op: []string{"get", "get", "has", "store", "remove", "get"}[rng.Intn(6)], Unc: rng.Bool(), K: rng.Intn(k)}
-		if op.Op == "get" {
+		op := c20Op{Op: []string{"get", "get", "has", "store", "remove", "get", "prune", "verify"}[rng.Intn(8)], Unc: rng.Bool(), K: rng.Intn(k)}
+		switch op.Op {
+		case "get":
 			op.Skip = rng.Chance(1, 4)
+		case "prune":
+			op.Keep = rng.Intn(1 << uint(k))
+		case "verify":
+			op.Repair = rng.Bool()
 		}
 		c.Ops = append(c.Ops, op)
 	}
@@ -694,6 +774,21 @@ func c20Interop(a vh.Args, r *vh.Result) {
 			}
 		}
 	}
+	// hand-assembled streaming-style frames (window 1 KiB .. 8 MiB) through both builds
+	{
+		dir, _ := lsFreshDir(a.Work, "interop-frames")
+		want, err := c20FrameStore(dir, vh.NewRand(a.Seed))
+		if err == nil {
+			for _, rd := range []struct{ name, bin string }{{"klauspost", kp}, {"libzstd", dd}} {
+				got, rerr := run(rd.bin, "read", dir)
+				r.Count("interop|frames->"+rd.name, true)
+				r.Dist("interop:frames->" + rd.name)
+				if rerr != nil || got != want {
+					r.Fail("predicate", "interop/frames-to-"+rd.name, fmt.Sprintf("store of hand-assembled zstd frames read by the %s build: want %q, got %q (err=%v)", rd.name, want, got, rerr), map[string]string{"reader": rd.name, "seed": seed})
+				}
+			}
+		}
+	}
 	// casync-written fixtures through the libzstd build
 	for _, st := range []string{filepath.Join(repo, "testdata", "blob1.store"), filepath.Join(repo, "cmd", "desync", "testdata", "blob2.store")} {
 		o1, e1 := run(kp, "read512", st)
@@ -708,7 +803,7 @@ func c20Interop(a vh.Args, r *vh.Result) {
 // ---------- driver ----------
 
 func runC20(a vh.Args, o *vh.Oracle, r *vh.Result) error {
-	r.Rule = "cases: layout = (chunk shape incl. 1 byte, all-zero, incompressible, 256 KiB; format; real or forced id) stored into an empty store and the directory inspected; coexist = random store directory over 2-4 chunk ids with every (id, format) slot absent/valid/corrupt/foreign/empty/directory/garbage plus temp and junk files, then 6-11 random get/has/store/remove operations through handles of either format, each compared with a twin directory lacking the other format's files; unhex = adversarial id strings; fixture = every chunk of the casync-made stores. non-trivial = layout and fixture cases, coexist operations with at least one file of the other format present, id strings of length >= 60 or accepted"
+	r.Rule = "cases: layout = (chunk shape incl. 1 byte, all-zero, incompressible, 256 KiB; format; real or forced id) stored into an empty store and the directory inspected; coexist = random store directory over 2-4 chunk ids with every (id, format) slot absent/valid/corrupt/foreign/empty/directory/garbage plus temp and junk files, then 6-11 random get/has/store/remove/prune/verify operations through handles of either format, each compared with a twin directory lacking the other format's files; unhex = adversarial id strings; fixture = every chunk of the casync-made stores. non-trivial = layout and fixture cases, coexist operations with at least one file of the other format present, id strings of length >= 60 or accepted"
 	desync.Digest = desync.SHA256{}
 	if a.Replay != "" {
 		var c c20Case
@@ -722,6 +817,12 @@ func runC20(a vh.Args, o *vh.Oracle, r *vh.Result) error {
 			return c20Coexist(a, o, r, &c)
 		case "unhex":
 			return c20Unhex(o, r, &c)
+		case "frame":
+			var fc c20FrameCase
+			if err := readJSON(a.Replay, &fc); err != nil {
+				return err
+			}
+			return c20Frame(a, r, &fc)
 		}
 		return fmt.Errorf("cannot replay case kind %q", c.Kind)
 	}
@@ -791,6 +892,9 @@ func runC20(a vh.Args, o *vh.Oracle, r *vh.Result) error {
 		}
 	}
 	r.Sample(map[string]interface{}{"kind": "coexist", "example": c20GenCoexist(vh.NewRand(a.Seed)).Ops})
+	if err := c20FramesAll(a, r, rng); err != nil {
+		return err
+	}
 	c20Fixtures(a, r)
 	if thorough {
 		c20Interop(a, r)
